@@ -453,8 +453,8 @@ Inductive cres := CVal (j : json) | CErr.
 (* why a field error was raised.  [CauseArgs]: CoerceArgumentValues failed (validation is meant
    to make this unreachable, up to the run-time-deferred null variable); all others are properties
    of the data graph: the resolver raised, null in a non-null position, a non-list value for a
-   list type, a leaf that does not serialise, an object/abstract position whose value is not an
-   object of a possible runtime type. *)
+   list type, a leaf that does not serialise, an abstract position whose value is not an object of
+   a possible runtime type (or a position of a type the schema does not define). *)
 Inductive cause := CauseArgs | CauseRaise | CauseNull | CauseNonList | CauseLeaf | CauseType.
 
 (* an error: the response path where it was raised (relative to the current position), its cause *)
@@ -535,6 +535,10 @@ Fixpoint complete_items (cf : data -> option out) (items : list data) (i : nat) 
     end
   end.
 
+(* the fields a default-like resolver can read off a value: none unless it is an object *)
+Definition data_fields (d : data) : list (str * data) :=
+  match d with DObj _ flds => flds | _ => [] end.
+
 Section Exec.
   Variable s : schema.
   Variable frags : list fragment.
@@ -614,10 +618,9 @@ Section Exec.
             | _ =>
               match lookup_type s n with
               | Some (TObject _ _) =>
-                  match d with
-                  | DObj _ flds => exec_sels f n flds sels
-                  | _ => Some (raise_here CauseType)
-                  end
+                  (* CompleteValue for an object type does not inspect the value; a value that is
+                     not an object has no fields (every resolver returns null) *)
+                  exec_sels f n (data_fields d) sels
               | Some (TInterface _) | Some (TUnion _) =>
                   match d with
                   | DObj rt flds =>
